@@ -80,8 +80,14 @@ func (k *Keeper) SlashAssets(ctx sdk.Context, parameter *types.SlashInputInfo) (
 		return nil, err
 	}
 	// calculate the new slash proportion
-	newSlashProportion := slashUSDValue.Quo(stakingInfo.StakingAndWaitUnbonding)
-	newSlashProportion = sdkmath.LegacyMinDec(sdkmath.LegacyNewDec(1), newSlashProportion)
+	// if the operator's current value (including the unbonding stake) has shrunk to zero,
+	// e.g. because an earlier slash already took everything, there is nothing left to divide
+	// by; the proportion is capped at 1 like for any slash bigger than the current value.
+	newSlashProportion := sdkmath.LegacyNewDec(1)
+	if !stakingInfo.StakingAndWaitUnbonding.IsZero() {
+		newSlashProportion = slashUSDValue.Quo(stakingInfo.StakingAndWaitUnbonding)
+		newSlashProportion = sdkmath.LegacyMinDec(sdkmath.LegacyNewDec(1), newSlashProportion)
+	}
 
 	executionInfo := &types.SlashExecutionInfo{
 		SlashProportion:    newSlashProportion,
